@@ -61,5 +61,7 @@ def run(ctx: Ctx):
         # three release times; the particles of the second one are killed before the third
         sc["rows"] = [dict(r0, step=0, mult=2), dict(r0, step=3, mult=2), dict(r0, step=6, mult=2)]
         sc["kill"] = {"1": [1], "4": [2, 3]}
+        if k % 3 == 0:
+            sc["kill"] = {"1": [0, 1], "4": [2, 3]}       # everybody dead at the same time, twice, before the next release
         ecases.append(sc)
     scen.e2e_stream(ctx, "whole-run-deaths", ecases, "Ladim.C09.dead_stay_dead / Ladim.Whole.records_valid", monitor=contiguous)
